@@ -948,6 +948,63 @@ fn arg_valid_alone(d: &[Tok], a: &[Tok]) -> bool {
     }
 }
 
+/// A one-parameter macro whose delimiter is a word of 3-8 letters over {a,b}, biased to words
+/// with long borders (aaab, aabaab, abab...).
+fn kmp_spec(rng: &mut Rng) -> Spec {
+    let len = rng.range_usize(3, 8);
+    let mut d: Vec<char> = vec![];
+    if rng.chance(2, 3) {
+        // periodic start, then a break: the classic bad case for a wrong prefix function
+        let period = rng.range_usize(1, 3);
+        let unit: Vec<char> = (0..period).map(|_| if rng.coin() { 'a' } else { 'b' }).collect();
+        for i in 0..len {
+            d.push(unit[i % period]);
+        }
+        let k = rng.range_usize(len.saturating_sub(2), len - 1);
+        d[k] = if d[k] == 'a' { 'b' } else { 'a' };
+    } else {
+        for _ in 0..len {
+            d.push(if rng.coin() { 'a' } else { 'b' });
+        }
+    }
+    let two = rng.chance(1, 4);
+    let mut delims = vec![d.iter().map(|c| ch(*c)).collect::<Vec<Tok>>()];
+    if two {
+        delims.push(vec![ch('.')]);
+    }
+    let mut body = vec![ch('['), Tok::Param, ch('1'), ch(']')];
+    if two {
+        body.extend([ch('('), Tok::Param, ch('2'), ch(')')]);
+    }
+    Spec {
+        def_kw: vec![cs("def")],
+        name: cs("a"),
+        prefix: vec![],
+        delims,
+        hash_brace: false,
+        body,
+    }
+}
+
+/// An argument over {a,b} assembled from proper prefixes of the delimiter each followed by a
+/// letter that breaks the match (near misses and partial repeats).
+fn kmp_arg(rng: &mut Rng, d: &[Tok]) -> Vec<Tok> {
+    let mut a = vec![];
+    if d.iter().any(|t| !matches!(t, Tok::Ch(_))) || d.len() < 2 {
+        return random_balanced(rng, d, 0);
+    }
+    for _ in 0..rng.range_usize(0, 5) {
+        let j = rng.range_usize(1, d.len() - 1);
+        a.extend(d[..j].iter().cloned());
+        if rng.chance(3, 4) {
+            // the letter that does NOT continue the delimiter
+            let next = &d[j];
+            a.push(if *next == ch('a') { ch('b') } else { ch('a') });
+        }
+    }
+    a
+}
+
 fn random_spec(rng: &mut Rng) -> Spec {
     let n = [0usize, 1, 2, 3, 4, 5, 6, 7, 8, 9][rng.weighted(&[1, 3, 3, 3, 2, 2, 1, 1, 1, 4])];
     let plen = rng.weighted(&[5, 3, 2, 1]);
@@ -1062,6 +1119,9 @@ impl Monitor for M {
             )),
         }
         v.push(Phase::new("random", tier.pick(15_000, 1_500_000)).batch(64));
+        // delimiters of 3-8 tokens over {a,b} (self-overlapping ones included) against arguments
+        // built from near misses: what the KMP prefix function of the delimiter matcher is for
+        v.push(Phase::new("kmp", tier.pick(12_000, 600_000)).batch(64));
         v
     }
 
@@ -1142,6 +1202,37 @@ impl Monitor for M {
                         intended.push(a);
                     }
                     check_call(&mut vm, &inst, &intended, c + rng.usize_below(3), obs, "random");
+                }
+            }
+            "kmp" => {
+                let spec = kmp_spec(rng);
+                let inst = match spec.instantiate() {
+                    Ok(i) => i,
+                    Err(e) => {
+                        obs.inconclusive(e);
+                        return;
+                    }
+                };
+                let mut vm: Option<Vm> = None;
+                for c in 0..4 {
+                    let mut intended: Vec<Vec<Tok>> = vec![];
+                    for d in &inst.eff_delims {
+                        let mut a = kmp_arg(rng, d);
+                        let mut tries = 0;
+                        while !arg_valid_alone(d, &a) && tries < 12 {
+                            a = kmp_arg(rng, d);
+                            tries += 1;
+                        }
+                        if !arg_valid_alone(d, &a) {
+                            obs.count("kmp:argument-replaced-by-fallback");
+                            a = vec![];
+                        } else if a.len() >= d.len() {
+                            obs.count("kmp:arguments_at_least_as_long_as_delimiter");
+                        }
+                        intended.push(a);
+                    }
+                    obs.count(&format!("kmp:delimiter_len_{}", inst.eff_delims[0].len()));
+                    check_call(&mut vm, &inst, &intended, c + rng.usize_below(3), obs, "kmp");
                 }
             }
             _ => obs.inconclusive(format!("unknown phase {phase}")),
